@@ -787,6 +787,52 @@ ALL_BRANCHES = [
 ]
 
 
+def check_cancelled_matrix(res: Result) -> None:
+    """from_thread.check_cancelled() against the reference reading of the host's scope chain: every
+    combination of (outer cancelled?, middle shield?, middle cancelled?, inner shield?) around the
+    to_thread.run_sync call (oracle only; the walk itself is theorem C14_check_cancelled_iff)"""
+    import itertools as it
+
+    async def probe(oc: bool, ms: bool, mc: bool, ish: bool) -> bool | str:
+        seen: list[bool] = []
+
+        def fn() -> None:
+            # the scopes are cancelled from inside the thread, once the function is running
+            if oc:
+                from_thread.run_sync(outer.cancel)
+            if mc:
+                from_thread.run_sync(middle.cancel)
+            try:
+                from_thread.check_cancelled()
+            except BaseException:
+                seen.append(True)
+            else:
+                seen.append(False)
+
+        with CancelScope() as outer:
+            with CancelScope(shield=ms) as middle:
+                with CancelScope(shield=ish):
+                    # abandon_on_cancel=False: the call itself is shielded, the thread still sees the chain
+                    await to_thread.run_sync(fn)
+        return seen[0] if seen else "no-result"
+
+    for oc, ms, mc, ish in it.product([False, True], repeat=4):
+        want = (not ish) and (mc or ((not ms) and oc))
+        try:
+            got = anyio.run(probe, oc, ms, mc, ish)
+        except BaseException as e:  # noqa: BLE001
+            got = f"raised {type(e).__name__}"
+        res.evaluations += 1
+        res.stats["check_cancelled_matrix"] = res.stats.get("check_cancelled_matrix", 0) + 1
+        if got != want:
+            res.violations.append(Violation(
+                {"check_cancelled": {"outer_cancelled": oc, "middle_shield": ms, "middle_cancelled": mc,
+                                     "inner_shield": ish}},
+                f"from_thread.check_cancelled() reported {got} where the scope chain says {want} "
+                f"(outer cancelled={oc}, middle shield={ms} cancelled={mc}, inner shield={ish})",
+                "C14:check-cancelled-chain"))
+
+
 def run(ctx: Ctx) -> Result:
     res = Result(rule="real threads behind gates: every completion order of <=4 (quick) / <=6 (thorough) "
                       "concurrent calls x limiter size 1..3 x {asyncio, uvloop}, kinds/abandon/cancellation "
@@ -814,6 +860,7 @@ def run(ctx: Ctx) -> Result:
             break
     hit = res.stats.get("model_branch_hits", {})
     res.stats["model_branches_unhit"] = [b for b in ALL_BRANCHES if b not in hit]
+    check_cancelled_matrix(res)
     return res
 
 
